@@ -6,6 +6,7 @@ import (
 	"fmt"
 	"math"
 	"math/rand"
+	"sort"
 	"testing"
 
 	"github.com/restic/restic/internal/repository/crypto"
@@ -14,39 +15,149 @@ import (
 	kit "github.com/restic/restic/internal/verifkit"
 )
 
-// C56: the index hash table behaves as an insert-only multimap.  Operation sequences (single adds, many adds with
-// one key, bursts of filler entries that force bucket and block growth, preallocate calls at arbitrary points) are
-// applied to a real indexMap (mode "map") or to a real index.Index (mode "index": StorePack, Lookup, Has,
+// C56: the index hash table behaves as an insert-only multimap.  Operation sequences (adds of one or many entries
+// with one key, bursts of filler entries that force bucket and block growth, preallocate calls at arbitrary points)
+// are applied to a real indexMap (mode "map") or to a real index.Index (mode "index": StorePack, Lookup, Has,
 // LookupSize, BlobIndex, Values, Preallocate, Len); after every step the table is observed.  Fn_IndexMap!RecOK
-// (TLC) computes the expected contents from the operations and judges the observations.
+// (TLC) computes the expected contents (bags) from the operations and judges the observations.
+//
+// An inserted tracked entry is described by a value code = (pack number, offset number, length variant).  Codes are
+// NOT unique: the same code may be inserted again (same key or another key, consecutively or later), and codes that
+// share pack and offset but differ in length / uncompressed length occur as well.
 
 const c56FillBase = 1000000
 
-// c56Look is written as the JSON array [tags, get, has, first] (TLC reads JSON slowly; tuples keep records small).
+const (
+	c56Offs     = 1024 // offset numbers 0..1023
+	c56Variants = 8    // (length, uncompressedLength) variants per offset number
+)
+
+// c56PL is the payload of an entry besides its pack.
+type c56PL struct{ off, length, ulen uint32 }
+
+// pack indexes used in map mode (pack number = position in this table)
+var c56PackIdx = []uint32{0, 1, 2, 999, math.MaxUint32}
+
+func c56Code(pk, o, v int) int { return (pk*c56Offs+o)*c56Variants + v }
+func c56Split(code int) (pk, o, v int) {
+	return code / (c56Offs * c56Variants), code / c56Variants % c56Offs, code % c56Variants
+}
+
+func c56OffOf(o int) uint32 {
+	switch {
+	case o == 1:
+		return 0
+	case o%16 == 0:
+		return math.MaxUint32 - uint32(o/16)
+	}
+	return uint32(o)*4099 + 1
+}
+
+// c56PLOf: payload of (offset number, variant).  Variants 0,1,2 differ in exactly one of the two lengths; the others
+// carry the extremes (0 = "not compressed" for the uncompressed length, 32-bit limits).
+func c56PLOf(o, v int) c56PL {
+	pl := c56PL{off: c56OffOf(o)}
+	uo := uint32(o)
+	switch v {
+	case 0:
+		pl.length, pl.ulen = 33+uo, 5+uo
+	case 1:
+		pl.length, pl.ulen = 34+uo, 5+uo
+	case 2:
+		pl.length, pl.ulen = 33+uo, 6+uo
+	case 3:
+		pl.length, pl.ulen = 33+uo, 0
+	case 4:
+		pl.length, pl.ulen = math.MaxUint32, 0
+	case 5:
+		pl.length, pl.ulen = 0, math.MaxUint32
+	case 6:
+		pl.length, pl.ulen = 0, 0
+	case 7:
+		pl.length, pl.ulen = 1<<31, 77+uo
+	}
+	return pl
+}
+
+var c56PLInv = func() map[c56PL]int {
+	m := map[c56PL]int{}
+	for o := 0; o < c56Offs; o++ {
+		for v := 0; v < c56Variants; v++ {
+			pl := c56PLOf(o, v)
+			if _, dup := m[pl]; dup {
+				panic("c56: payload table is not injective")
+			}
+			m[pl] = o*c56Variants + v
+		}
+	}
+	return m
+}()
+
+// payload of filler number j (fillers are inserted once each, their pack is derived from j as well)
+func c56FillPL(j int) c56PL {
+	tag := c56FillBase + j
+	pl := c56PL{off: uint32(tag), length: uint32(tag*7 + 33), ulen: uint32(tag*13 + 5)}
+	if tag%5 == 0 {
+		pl.length = math.MaxUint32
+	}
+	if tag%3 == 0 {
+		pl.ulen = 0
+	}
+	if tag%11 == 0 {
+		pl.ulen = math.MaxUint32
+	}
+	if tag%17 == 0 {
+		pl.length = 0
+	}
+	return pl
+}
+
+// c56Look is written as the JSON array [codes, get, has, first, iter], or [] when nothing changed since the previous
+// observation (TLC reads JSON slowly; most keys do not change in a step).
 type c56Look struct {
-	Tags  []int
-	Get   int
+	Codes []int // sorted codes of the entries found for the key; -1 for an entry whose payload/key was never inserted
+	Get   int   // code of the single lookup, -2 none, -1 corrupt
 	Has   bool
 	First int
+	Iter  []int // sorted codes of the entries with this key met by the full iteration
+	Same  bool  // encoding only: equal to the previous observation of this key
 }
 
 func (l c56Look) MarshalJSON() ([]byte, error) {
-	return json.Marshal([]any{l.Tags, l.Get, l.Has, l.First})
+	if l.Same {
+		return []byte("[]"), nil
+	}
+	return json.Marshal([]any{l.Codes, l.Get, l.Has, l.First, l.Iter})
+}
+
+func (l c56Look) equal(o c56Look) bool {
+	if l.Get != o.Get || l.Has != o.Has || l.First != o.First || len(l.Codes) != len(o.Codes) || len(l.Iter) != len(o.Iter) {
+		return false
+	}
+	for i := range l.Codes {
+		if l.Codes[i] != o.Codes[i] {
+			return false
+		}
+	}
+	for i := range l.Iter {
+		if l.Iter[i] != o.Iter[i] {
+			return false
+		}
+	}
+	return true
 }
 
 type c56Obs struct {
 	Len  int       `json:"len"`
 	Look []c56Look `json:"look"`
 	Fill []c56Look `json:"fill"`
-	It   [4]int    `json:"it"` // tracked entries met by the iteration: seen, distinct tags, min tag, max tag
 	Fs   [3]int    `json:"fs"` // filler entries met, distinct fillers met, entries with foreign/corrupt payload or key
 }
 
 type c56Step struct {
 	Op   string   `json:"op"`
 	K    string   `json:"k"`
-	T    int      `json:"t"`
-	Ts   []int    `json:"ts,omitempty"`
+	Vs   []int    `json:"vs,omitempty"`
 	From int      `json:"from"`
 	To   int      `json:"to"`
 	N    int      `json:"n"`
@@ -55,6 +166,7 @@ type c56Step struct {
 
 type c56Rec struct {
 	Mode     string    `json:"mode"`
+	Family   string    `json:"family"`
 	KeyMode  string    `json:"keymode"`
 	FillMode string    `json:"fillmode"`
 	Keys     []string  `json:"keys"`
@@ -63,157 +175,138 @@ type c56Rec struct {
 	Panic    string    `json:"panic"`
 }
 
-// payload derived from the tag; extremes up to the 32-bit limits
-func c56Payload(tag int) (off, length, ulen uint32) {
-	off = uint32(tag)
-	length = uint32(tag*7 + 33)
-	ulen = uint32(tag*13 + 5)
-	if tag%5 == 0 {
-		length = math.MaxUint32
-	}
-	if tag%3 == 0 {
-		ulen = 0
-	}
-	if tag%11 == 0 {
-		ulen = math.MaxUint32
-	}
-	if tag%17 == 0 {
-		length = 0
-	}
-	return
+// c56Raw is an entry as the table under test presents it: pack is the pack index (map mode) or the number encoded
+// in the pack ID (index mode), -1 if it cannot be interpreted.
+type c56Raw struct {
+	id   restic.ID
+	pack int64
+	pl   c56PL
 }
 
 // c56Table is the table under test: raw indexMap or Index.
 type c56Table interface {
-	add(id restic.ID, tags []int)
+	addBatch(id restic.ID, pack int64, pls []c56PL) // one entry per payload, in order
 	prealloc(n int)
-	lookup(id restic.ID) []int // tags; -1 for an entry whose payload/key is not what was inserted
-	get(id restic.ID) int      // tag, -2 none, -1 corrupt
+	lookup(id restic.ID) []c56Raw
+	get(id restic.ID) (c56Raw, bool)
 	has(id restic.ID) bool
 	first(id restic.ID) int
-	iter(fn func(id restic.ID, tag int))
+	iter(fn func(c56Raw))
 	length() int
 }
 
 type c56Map struct{ m indexMap }
 
-func c56EntryTag(e *indexEntry, want *restic.ID) int {
-	tag := int(e.offset)
-	off, l, u := c56Payload(tag)
-	if e.offset != off || e.length != l || e.uncompressedLength != u || e.packIndex != uint32(tag%1000) {
-		return -1
-	}
-	if want != nil && e.id != *want {
-		return -1
-	}
-	return tag
+func c56MapRaw(e *indexEntry) c56Raw {
+	return c56Raw{id: e.id, pack: int64(e.packIndex), pl: c56PL{e.offset, e.length, e.uncompressedLength}}
 }
 
-func (t *c56Map) add(id restic.ID, tags []int) {
-	for _, tag := range tags {
-		off, l, u := c56Payload(tag)
-		t.m.add(id, uint32(tag%1000), off, l, u)
+func (t *c56Map) addBatch(id restic.ID, pack int64, pls []c56PL) {
+	for _, pl := range pls {
+		t.m.add(id, uint32(pack), pl.off, pl.length, pl.ulen)
 	}
 }
 func (t *c56Map) prealloc(n int) { t.m.preallocate(n) }
-func (t *c56Map) lookup(id restic.ID) []int {
-	res := []int{}
+func (t *c56Map) lookup(id restic.ID) []c56Raw {
+	res := []c56Raw{}
 	for e := range t.m.valuesWithID(id) {
-		res = append(res, c56EntryTag(e, &id))
+		res = append(res, c56MapRaw(e))
 	}
 	return res
 }
-func (t *c56Map) get(id restic.ID) int {
+func (t *c56Map) get(id restic.ID) (c56Raw, bool) {
 	e := t.m.get(id)
 	if e == nil {
-		return -2
+		return c56Raw{}, false
 	}
-	return c56EntryTag(e, &id)
+	return c56MapRaw(e), true
 }
 func (t *c56Map) has(id restic.ID) bool  { return t.m.get(id) != nil }
 func (t *c56Map) first(id restic.ID) int { return t.m.firstIndex(id) }
-func (t *c56Map) iter(fn func(id restic.ID, tag int)) {
+func (t *c56Map) iter(fn func(c56Raw)) {
 	for e := range t.m.values() {
-		fn(e.id, c56EntryTag(e, nil))
+		fn(c56MapRaw(e))
 	}
 }
 func (t *c56Map) length() int { return int(t.m.len()) }
 
 type c56Index struct {
-	idx    *Index
-	packOf map[int]restic.ID // tag -> pack it was stored with
-	npack  int
-	typ    restic.BlobType
+	idx *Index
+	typ restic.BlobType
 }
 
-func (t *c56Index) blobTag(ppb *pack.PackedBlob, want *restic.ID) int {
-	pb := ppb.Blob
-	tag := int(pb.Offset)
-	off, l, u := c56Payload(tag)
-	if pb.Offset != uint(off) || pb.Length != uint(l) || pb.UncompressedLength != uint(u) || pb.Type != t.typ {
-		return -1
-	}
-	if p, ok := t.packOf[tag]; !ok || p != ppb.PackID() {
-		return -1
-	}
-	if want != nil && pb.ID != *want {
-		return -1
-	}
-	return tag
-}
-
-func (t *c56Index) add(id restic.ID, tags []int) {
-	t.npack++
+// pack IDs of index mode carry the pack number
+func c56PackID(n int64) restic.ID {
 	var p restic.ID
-	binary.BigEndian.PutUint64(p[:8], uint64(t.npack))
+	binary.BigEndian.PutUint64(p[:8], uint64(n))
 	p[31] = 0x56
-	var blobs pack.Blobs
-	for _, tag := range tags {
-		off, l, u := c56Payload(tag)
-		blobs = append(blobs, pack.Blob{BlobHandle: restic.BlobHandle{ID: id, Type: t.typ}, Offset: uint(off), Length: uint(l), UncompressedLength: uint(u)})
-		t.packOf[tag] = p
+	return p
+}
+
+func c56PackNo(p restic.ID) int64 {
+	for i := 8; i < 31; i++ {
+		if p[i] != 0 {
+			return -1
+		}
 	}
-	t.idx.StorePack(p, blobs)
+	if p[31] != 0x56 || p[0] != 0 {
+		return -1
+	}
+	return int64(binary.BigEndian.Uint64(p[:8]))
+}
+
+func (t *c56Index) raw(ppb *pack.PackedBlob) c56Raw {
+	pb := ppb.Blob
+	r := c56Raw{id: pb.ID, pack: c56PackNo(ppb.PackID()), pl: c56PL{uint32(pb.Offset), uint32(pb.Length), uint32(pb.UncompressedLength)}}
+	if pb.Type != t.typ || pb.Offset > math.MaxUint32 || pb.Length > math.MaxUint32 || pb.UncompressedLength > math.MaxUint32 {
+		r.pack = -1
+	}
+	return r
+}
+
+func (t *c56Index) addBatch(id restic.ID, packNo int64, pls []c56PL) {
+	var blobs pack.Blobs
+	for _, pl := range pls {
+		blobs = append(blobs, pack.Blob{BlobHandle: restic.BlobHandle{ID: id, Type: t.typ}, Offset: uint(pl.off), Length: uint(pl.length), UncompressedLength: uint(pl.ulen)})
+	}
+	t.idx.StorePack(c56PackID(packNo), blobs)
 }
 func (t *c56Index) prealloc(n int) { t.idx.Preallocate(t.typ, n) }
-func (t *c56Index) lookup(id restic.ID) []int {
-	res := []int{}
+func (t *c56Index) lookup(id restic.ID) []c56Raw {
+	res := []c56Raw{}
 	for _, pb := range t.idx.Lookup(restic.BlobHandle{ID: id, Type: t.typ}, nil) {
-		res = append(res, t.blobTag(pb, &id))
+		res = append(res, t.raw(pb))
 	}
 	return res
 }
 
 // get: Index has no single-entry lookup returning the entry; LookupSize reports the plaintext size of one entry of
-// the blob, which identifies the tag only up to equal sizes: the tag of an inserted entry with that size is returned.
-func (t *c56Index) get(id restic.ID) int {
+// the blob, which identifies the entry only up to equal sizes: an entry of the blob with that size is returned
+// (pack -1 = no entry of the blob has the reported size).
+func (t *c56Index) get(id restic.ID) (c56Raw, bool) {
 	size, ok := t.idx.LookupSize(restic.BlobHandle{ID: id, Type: t.typ})
 	if !ok {
-		return -2
+		return c56Raw{}, false
 	}
 	for _, pb := range t.idx.Lookup(restic.BlobHandle{ID: id, Type: t.typ}, nil) {
-		tag := t.blobTag(pb, &id)
-		if tag < 0 {
-			continue
+		r := t.raw(pb)
+		want := uint(r.pl.ulen)
+		if r.pl.ulen == 0 {
+			want = uint(crypto.PlaintextLength(int(r.pl.length)))
 		}
-		_, l, u := c56Payload(tag)
-		want := uint(u)
-		if u == 0 {
-			want = uint(crypto.PlaintextLength(int(l)))
-		}
-		if want == size {
-			return tag
+		if r.pack >= 0 && want == size {
+			return r, true
 		}
 	}
-	return -1
+	return c56Raw{id: id, pack: -1}, true
 }
 func (t *c56Index) has(id restic.ID) bool { return t.idx.Has(restic.BlobHandle{ID: id, Type: t.typ}) }
 func (t *c56Index) first(id restic.ID) int {
 	return t.idx.BlobIndex(restic.BlobHandle{ID: id, Type: t.typ})
 }
-func (t *c56Index) iter(fn func(id restic.ID, tag int)) {
+func (t *c56Index) iter(fn func(c56Raw)) {
 	for pb := range t.idx.Values() {
-		fn(pb.Blob.ID, t.blobTag(pb, nil))
+		fn(t.raw(pb))
 	}
 }
 func (t *c56Index) length() int { return int(t.idx.Len(t.typ)) }
@@ -267,15 +360,75 @@ func c56FillID(mode string, salt uint64, j int) restic.ID {
 }
 
 type c56Plan struct {
-	mode, keyMode, fillMode string
-	nkeys                   int
-	steps                   []c56Step
-	salt                    uint64
-	keyseed                 int64
+	mode, keyMode, fillMode, family string
+	nkeys                           int // keys that receive entries; the executor adds never-inserted ones
+	nsamp                           int // size of the filler sample
+	steps                           []c56Step
+	salt                            uint64
+	keyseed                         int64
+}
+
+// c56Gen draws value codes: fresh ones from a per-plan domain (from a single position up to 1024 offsets x 5 packs x
+// 8 variants) and, often, codes related to what is already stored: the code of the newest entry of the key, of an
+// older entry of the key, of the entry inserted last under any key - either exactly the same code again, or the same
+// pack and offset with other lengths, or the same offset in another pack.
+type c56Gen struct {
+	r                      *rand.Rand
+	pkDom, offDom, varDom []int
+	hist                   map[int][]int
+	last                   int
+}
+
+func c56NewGen(r *rand.Rand) *c56Gen {
+	g := &c56Gen{r: r, hist: map[int][]int{}, last: -1}
+	g.pkDom = r.Perm(len(c56PackIdx))[:[]int{1, 2, 5}[r.Intn(3)]]
+	g.varDom = r.Perm(c56Variants)[:[]int{1, 2, 8}[r.Intn(3)]]
+	nOff := []int{1, 2, 3, 8, 64, c56Offs}[r.Intn(6)]
+	base, stride := r.Intn(c56Offs), 1+2*r.Intn(8) // odd stride: a permutation of the offset numbers
+	for i := 0; i < nOff; i++ {
+		g.offDom = append(g.offDom, (base+i*stride)%c56Offs)
+	}
+	return g
+}
+
+func (g *c56Gen) draw(k int) int {
+	r := g.r
+	base := -1
+	h := g.hist[k]
+	switch x := r.Intn(100); {
+	case x < 25 && len(h) > 0:
+		base = h[len(h)-1]
+	case x < 40 && len(h) > 0:
+		base = h[r.Intn(len(h))]
+	case x < 48:
+		base = g.last
+	}
+	var pk, o, v int
+	if base >= 0 {
+		pk, o, v = c56Split(base)
+		switch r.Intn(5) {
+		case 0, 1: // the very same code again
+		case 2: // same pack and offset, other lengths
+			v = (v + 1 + r.Intn(c56Variants-1)) % c56Variants
+		case 3: // same pack and offset, one of the two lengths differs by one (variants 0,1,2)
+			v = []int{1, 2, 0}[v%3]
+		case 4: // same offset and lengths in another pack
+			pk = (pk + 1 + r.Intn(len(c56PackIdx)-1)) % len(c56PackIdx)
+		}
+	} else {
+		pk, o, v = g.pkDom[r.Intn(len(g.pkDom))], g.offDom[r.Intn(len(g.offDom))], g.varDom[r.Intn(len(g.varDom))]
+	}
+	code := c56Code(pk, o, v)
+	g.hist[k] = append(g.hist[k], code)
+	g.last = code
+	return code
 }
 
 func c56RandomPlan(r *rand.Rand, maxEntries int, big bool) c56Plan {
-	p := c56Plan{salt: r.Uint64(), keyseed: r.Int63()}
+	p := c56Plan{salt: r.Uint64(), keyseed: r.Int63(), family: "random", nsamp: 16}
+	if big {
+		p.family = "big"
+	}
 	p.mode = []string{"map", "map", "index"}[r.Intn(3)]
 	p.keyMode = []string{"random", "bloomclass", "firstbyte", "lastbyte", "zero", "allclasses"}[r.Intn(6)]
 	p.fillMode = []string{"random", "random", "bloomclass", "sameprefix", "bit0"}[r.Intn(5)]
@@ -283,32 +436,32 @@ func c56RandomPlan(r *rand.Rand, maxEntries int, big bool) c56Plan {
 	if p.keyMode == "allclasses" {
 		p.nkeys = 28
 	}
+	g := c56NewGen(r)
 	nsteps := 4 + r.Intn(30)
-	tag, fill, total := 0, 0, 0
+	fill, total := 0, 0
 	p.steps = append(p.steps, c56Step{Op: "nop"})
 	for i := 0; i < nsteps; i++ {
 		x := r.Intn(100)
 		switch {
 		case x < 50:
-			tag++
 			total++
 			k := r.Intn(p.nkeys)
 			if r.Intn(3) == 0 {
 				k = 0 // many entries with one key
 			}
-			p.steps = append(p.steps, c56Step{Op: "add", K: fmt.Sprintf("k%d", k), T: tag})
+			p.steps = append(p.steps, c56Step{Op: "add", K: fmt.Sprintf("k%d", k), Vs: []int{g.draw(k)}})
 		case x < 58:
 			n := []int{2, 3, 5, 9, 30, 70, 120}[r.Intn(7)]
 			if big {
 				n *= 3
 			}
-			var ts []int
+			k := r.Intn(p.nkeys)
+			var vs []int
 			for j := 0; j < n; j++ {
-				tag++
-				ts = append(ts, tag)
+				vs = append(vs, g.draw(k))
 			}
 			total += n
-			p.steps = append(p.steps, c56Step{Op: "addmany", K: fmt.Sprintf("k%d", r.Intn(p.nkeys)), Ts: ts})
+			p.steps = append(p.steps, c56Step{Op: "add", K: fmt.Sprintf("k%d", k), Vs: vs})
 		case x < 74:
 			n := []int{1, 2, 3, 4, 7, 13, 60, 66, 130, 250, 260, 520, 1030, 2100, 5000}[r.Intn(15)]
 			if big && r.Intn(2) == 0 {
@@ -350,18 +503,69 @@ func c56RandomPlan(r *rand.Rand, maxEntries int, big bool) c56Plan {
 	return p
 }
 
+// c56ExhaustivePlans: every sequence of exactly `length` single insertions over a small alphabet of (key, code)
+// symbols: k0 with codes A, A' (= A with another length), B (other offset), C (A's offset in another pack) and k1
+// with code A.  Observation after every step covers all shorter sequences as prefixes.  In index mode the whole
+// sequence over k0's four symbols is stored by ONE StorePack call (entries of one call share the pack).
+func c56ExhaustivePlans(r *rand.Rand, length int) []c56Plan {
+	var plans []c56Plan
+	pk, o := r.Intn(len(c56PackIdx)), r.Intn(c56Offs)
+	va := r.Intn(c56Variants)
+	a := c56Code(pk, o, va)
+	a2 := c56Code(pk, o, (va+1+r.Intn(c56Variants-1))%c56Variants)
+	b := c56Code(pk, (o+1+r.Intn(c56Offs-1))%c56Offs, va)
+	c := c56Code((pk+1+r.Intn(len(c56PackIdx)-1))%len(c56PackIdx), o, va)
+	type sym struct {
+		k    string
+		code int
+	}
+	keyModes := []string{"random", "bloomclass", "firstbyte", "lastbyte", "zero"}
+	mapSyms := []sym{{"k0", a}, {"k0", a2}, {"k0", b}, {"k0", c}, {"k1", a}}
+	n := 1
+	for i := 0; i < length; i++ {
+		n *= len(mapSyms)
+	}
+	for s := 0; s < n; s++ {
+		p := c56Plan{mode: "map", family: "exhaustive", keyMode: keyModes[r.Intn(len(keyModes))], fillMode: "random", nkeys: 2, nsamp: 2, salt: r.Uint64(), keyseed: r.Int63()}
+		p.steps = append(p.steps, c56Step{Op: "nop"})
+		for i, x := 0, s; i < length; i, x = i+1, x/len(mapSyms) {
+			y := mapSyms[x%len(mapSyms)]
+			p.steps = append(p.steps, c56Step{Op: "add", K: y.k, Vs: []int{y.code}})
+		}
+		plans = append(plans, p)
+	}
+	// index mode: pack of the call = pack of A, so C is replaced by B with another length
+	idxCodes := []int{a, a2, b, c56Code(pk, (b/c56Variants)%c56Offs, (va+1)%c56Variants)}
+	n = 1
+	for i := 0; i < length; i++ {
+		n *= len(idxCodes)
+	}
+	for s := 0; s < n; s++ {
+		p := c56Plan{mode: "index", family: "exhaustive", keyMode: keyModes[r.Intn(len(keyModes))], fillMode: "random", nkeys: 2, nsamp: 2, salt: r.Uint64(), keyseed: r.Int63()}
+		var vs []int
+		for i, x := 0, s; i < length; i, x = i+1, x/len(idxCodes) {
+			vs = append(vs, idxCodes[x%len(idxCodes)])
+		}
+		p.steps = append(p.steps, c56Step{Op: "nop"}, c56Step{Op: "add", K: "k0", Vs: vs})
+		plans = append(plans, p)
+	}
+	return plans
+}
+
 func c56Execute(p c56Plan) c56Rec {
-	rec := c56Rec{Mode: p.mode, KeyMode: p.keyMode, FillMode: p.fillMode, Keys: []string{}, Fsamp: []int{}, Steps: p.steps}
+	rec := c56Rec{Mode: p.mode, Family: p.family, KeyMode: p.keyMode, FillMode: p.fillMode, Keys: []string{}, Fsamp: []int{}, Steps: p.steps}
 	kr := rand.New(rand.NewSource(p.keyseed))
 	ids := c56KeyIDs(kr, p.keyMode, p.nkeys+2) // two keys are never inserted
-	for i := range ids {
-		rec.Keys = append(rec.Keys, fmt.Sprintf("k%d", i))
+	if p.keyMode != "zero" {
+		ids = append(ids, restic.ID{}) // the all-zero ID is always probed (never inserted here)
 	}
 	keyID := map[string]restic.ID{}
-	tracked := map[restic.ID]bool{}
+	tracked := map[restic.ID]int{}
 	for i, id := range ids {
-		keyID[fmt.Sprintf("k%d", i)] = id
-		tracked[id] = true
+		name := fmt.Sprintf("k%d", i)
+		rec.Keys = append(rec.Keys, name)
+		keyID[name] = id
+		tracked[id] = i
 	}
 	totalFill := 0
 	for _, s := range p.steps {
@@ -370,30 +574,70 @@ func c56Execute(p c56Plan) c56Rec {
 		}
 	}
 	// fixed sample of filler numbers: the first ones, some in the middle, the last ones, and some never inserted
-	samp := map[int]bool{1: true, 2: true, 3: true, totalFill: true, totalFill - 1: true, totalFill + 1: true, totalFill + 7: true}
-	for tries := 0; len(samp) < 16 && tries < 300; tries++ {
+	samp := map[int]bool{}
+	for _, j := range []int{1, totalFill, totalFill + 1, 2, totalFill - 1, 3, totalFill + 7} {
+		if j >= 1 && len(samp) < p.nsamp {
+			samp[j] = true
+		}
+	}
+	for tries := 0; len(samp) < p.nsamp && tries < 300; tries++ {
 		samp[1+kr.Intn(totalFill+5)] = true
 	}
 	for j := range samp {
-		if j >= 1 {
-			rec.Fsamp = append(rec.Fsamp, j)
-		}
+		rec.Fsamp = append(rec.Fsamp, j)
 	}
-	// deterministic order
-	for i := 0; i < len(rec.Fsamp); i++ {
-		for j := i + 1; j < len(rec.Fsamp); j++ {
-			if rec.Fsamp[j] < rec.Fsamp[i] {
-				rec.Fsamp[i], rec.Fsamp[j] = rec.Fsamp[j], rec.Fsamp[i]
-			}
-		}
+	sort.Ints(rec.Fsamp)
+	sampIdx := map[restic.ID]int{}
+	for y, j := range rec.Fsamp {
+		sampIdx[c56FillID(p.fillMode, p.salt, j)] = y
 	}
+
 	var tab c56Table
 	if p.mode == "map" {
 		tab = &c56Map{}
 	} else {
-		tab = &c56Index{idx: NewIndex(), packOf: map[int]restic.ID{}, typ: []restic.BlobType{restic.DataBlob, restic.TreeBlob}[p.keyseed%2]}
+		tab = &c56Index{idx: NewIndex(), typ: []restic.BlobType{restic.DataBlob, restic.TreeBlob}[p.keyseed%2]}
 	}
-	look := func(id restic.ID) c56Look {
+	// pack of a tracked code / of filler j as handed to the table, and back
+	packOf := func(pk int) int64 {
+		if p.mode == "map" {
+			return int64(c56PackIdx[pk])
+		}
+		return int64(pk)
+	}
+	fillPack := func(j int) int64 {
+		if p.mode == "map" {
+			return int64((c56FillBase + j) % 1000)
+		}
+		return 1<<40 + int64(j)
+	}
+	decode := func(e c56Raw) int { // value code of an entry stored under a tracked key, -1 if never inserted like that
+		ov, ok := c56PLInv[e.pl]
+		if !ok {
+			return -1
+		}
+		for pk := range c56PackIdx {
+			if packOf(pk) == e.pack {
+				return pk*c56Offs*c56Variants + ov
+			}
+		}
+		return -1
+	}
+	fillCode := func(e c56Raw, j int) int {
+		if e.pack != fillPack(j) || e.pl != c56FillPL(j) {
+			return -1
+		}
+		return j
+	}
+	fillNo := func(id restic.ID) int { // number of the filler with this ID, 0 if it is none
+		j := int(binary.BigEndian.Uint32(id[28:]))
+		if j < 1 || j > totalFill+10 || id != c56FillID(p.fillMode, p.salt, j) {
+			return 0
+		}
+		return j
+	}
+
+	look := func(id restic.ID, code func(c56Raw) int) c56Look {
 		first := tab.first(id)
 		if first > math.MaxInt32-1 { // TLC integers are 32 bit; any such position is out of range anyway
 			first = math.MaxInt32 - 1
@@ -401,51 +645,71 @@ func c56Execute(p c56Plan) c56Rec {
 		if first < -1 {
 			first = -3
 		}
-		return c56Look{Tags: tab.lookup(id), Get: tab.get(id), Has: tab.has(id), First: first}
+		l := c56Look{Codes: []int{}, Get: -2, Has: tab.has(id), First: first, Iter: []int{}}
+		for _, e := range tab.lookup(id) {
+			c := code(e)
+			if e.id != id {
+				c = -1
+			}
+			l.Codes = append(l.Codes, c)
+		}
+		sort.Ints(l.Codes)
+		if e, ok := tab.get(id); ok {
+			l.Get = code(e)
+			if e.id != id {
+				l.Get = -1
+			}
+		}
+		return l
 	}
-	observe := func(fillNow int) c56Obs {
-		o := c56Obs{Len: tab.length(), Look: []c56Look{}, Fill: []c56Look{}}
-		for _, k := range rec.Keys {
-			o.Look = append(o.Look, look(keyID[k]))
+	var prevLook, prevFill []c56Look
+	observe := func() c56Obs {
+		o := c56Obs{Len: tab.length()}
+		full := make([]c56Look, len(rec.Keys))
+		fullF := make([]c56Look, len(rec.Fsamp))
+		for x, k := range rec.Keys {
+			full[x] = look(keyID[k], decode)
 		}
-		for _, j := range rec.Fsamp {
-			o.Fill = append(o.Fill, look(c56FillID(p.fillMode, p.salt, j)))
+		for y, j := range rec.Fsamp {
+			j := j
+			fullF[y] = look(c56FillID(p.fillMode, p.salt, j), func(e c56Raw) int { return fillCode(e, j) })
 		}
-		seen := make([]bool, totalFill+2)
-		seenT := map[int]bool{}
-		tab.iter(func(id restic.ID, tag int) {
-			switch {
-			case tag < 0:
+		seen := make([]bool, totalFill+11)
+		tab.iter(func(e c56Raw) {
+			if x, ok := tracked[e.id]; ok {
+				full[x].Iter = append(full[x].Iter, decode(e))
+				return
+			}
+			j := fillNo(e.id)
+			if j == 0 || fillCode(e, j) < 0 {
 				o.Fs[2]++
-			case tag > c56FillBase:
-				j := tag - c56FillBase
-				if j > totalFill || id != c56FillID(p.fillMode, p.salt, j) {
-					o.Fs[2]++
-					return
-				}
-				o.Fs[0]++
-				if !seen[j] {
-					seen[j] = true
-					o.Fs[1]++
-				}
-			default:
-				if !tracked[id] {
-					o.Fs[2]++
-					return
-				}
-				o.It[0]++
-				if !seenT[tag] {
-					seenT[tag] = true
-					o.It[1]++
-				}
-				if o.It[2] == 0 || tag < o.It[2] {
-					o.It[2] = tag
-				}
-				if tag > o.It[3] {
-					o.It[3] = tag
-				}
+				return
+			}
+			o.Fs[0]++
+			if !seen[j] {
+				seen[j] = true
+				o.Fs[1]++
+			}
+			if y, ok := sampIdx[e.id]; ok {
+				fullF[y].Iter = append(fullF[y].Iter, j)
 			}
 		})
+		for x := range full {
+			sort.Ints(full[x].Iter)
+		}
+		// encoding: a 5-tuple equal to the one of the previous observation is written as []
+		enc := func(cur, prev []c56Look) []c56Look {
+			out := make([]c56Look, len(cur))
+			for i := range cur {
+				out[i] = cur[i]
+				if prev != nil && cur[i].equal(prev[i]) {
+					out[i] = c56Look{Same: true}
+				}
+			}
+			return out
+		}
+		o.Look, o.Fill = enc(full, prevLook), enc(fullF, prevFill)
+		prevLook, prevFill = full, fullF
 		return o
 	}
 	for i := range rec.Steps {
@@ -457,31 +721,40 @@ func c56Execute(p c56Plan) c56Rec {
 				rec.Panic = fmt.Sprint(pn)
 			}
 		}()
-		fillNow := 0
 		for i := range rec.Steps {
 			st := &rec.Steps[i]
 			switch st.Op {
-			case "add":
-				tab.add(keyID[st.K], []int{st.T})
-			case "addmany":
-				tab.add(keyID[st.K], st.Ts)
+			case "add": // consecutive codes with one pack go to the table in one batch (index mode: one StorePack call)
+				for a := 0; a < len(st.Vs); {
+					pk, _, _ := c56Split(st.Vs[a])
+					var pls []c56PL
+					b := a
+					for ; b < len(st.Vs); b++ {
+						pk2, o, v := c56Split(st.Vs[b])
+						if pk2 != pk {
+							break
+						}
+						pls = append(pls, c56PLOf(o, v))
+					}
+					tab.addBatch(keyID[st.K], packOf(pk), pls)
+					a = b
+				}
 			case "burst":
 				for j := st.From; j <= st.To; j++ {
-					tab.add(c56FillID(p.fillMode, p.salt, j), []int{c56FillBase + j})
+					tab.addBatch(c56FillID(p.fillMode, p.salt, j), fillPack(j), []c56PL{c56FillPL(j)})
 				}
-				fillNow = st.To
 			case "prealloc":
 				tab.prealloc(st.N)
 			case "nop":
 			}
-			st.Obs = append(st.Obs, observe(fillNow))
+			st.Obs = append(st.Obs, observe())
 		}
 	}()
 	return rec
 }
 
 func TestVerif_C56(t *testing.T) {
-	res := kit.NewResult("one case = one operation sequence (add / addmany with one key / burst of filler keys / preallocate(n) at arbitrary points, 5-35 steps) on a real indexMap or index.Index, with tracked keys built adversarially (equal bloom bit, equal first byte, IDs differing in the last byte, the zero ID, one key per bloom bit) and filler keys (random, one bloom bit, equal 28-byte prefix); the table is observed after every step (per-key lookups, single lookup, first-entry position, full iteration, length); distinct by (mode, key mode, filler mode, operation list); non-trivial when the table held at least two entries with one key or grew beyond 256 entries")
+	res := kit.NewResult("one case = one operation sequence (add of 1..360 entries with one key / burst of filler keys / preallocate(n) at arbitrary points, 5-35 steps; plus every sequence of 4 single insertions over 5 (key, value) symbols) on a real indexMap or index.Index; inserted values are codes (pack, offset, length variant) that repeat: the same value again under the same or another key, consecutively or later, the same pack and offset with other lengths, the same offset in another pack; tracked keys built adversarially (equal bloom bit, equal first byte, IDs differing in the last byte, the zero ID, one key per bloom bit) and filler keys (random, one bloom bit, equal 28-byte prefix); the table is observed after every step (per-key lookups, single lookup, first-entry position, full iteration, length); distinct by (mode, key mode, filler mode, operation list); non-trivial when the table held at least two entries with one key or grew beyond 256 entries")
 	recs := kit.NewNDJSON("recs.ndjson")
 	defer recs.Close()
 	r := kit.Rand(56)
@@ -489,16 +762,32 @@ func TestVerif_C56(t *testing.T) {
 	emit := func(rec c56Rec) {
 		sig := rec.Mode + "|" + rec.KeyMode + "|" + rec.FillMode
 		maxLen, multi := 0, false
+		stored := map[string][]int{}
 		for _, s := range rec.Steps {
-			sig += fmt.Sprintf("|%s,%s,%d,%d,%d,%d", s.Op, s.K, len(s.Ts), s.From, s.To, s.N)
+			sig += fmt.Sprintf("|%s,%s,%v,%d,%d,%d", s.Op, s.K, s.Vs, s.From, s.To, s.N)
+			for _, c := range s.Vs {
+				h := stored[s.K]
+				if len(h) > 0 {
+					multi = true
+					switch l := h[len(h)-1]; {
+					case l == c:
+						res.Count("add_equal_to_newest_entry_of_key", 1)
+					case l/c56Variants == c/c56Variants:
+						res.Count("add_same_pack_offset_as_newest_entry_of_key", 1)
+					default:
+						for _, e := range h {
+							if e/c56Variants == c/c56Variants {
+								res.Count("add_same_pack_offset_as_older_entry_of_key", 1)
+								break
+							}
+						}
+					}
+				}
+				stored[s.K] = append(h, c)
+			}
 			for _, o := range s.Obs {
 				if o.Len > maxLen {
 					maxLen = o.Len
-				}
-				for _, l := range o.Look {
-					if len(l.Tags) > 1 {
-						multi = true
-					}
 				}
 			}
 		}
@@ -511,9 +800,16 @@ func TestVerif_C56(t *testing.T) {
 			res.Count("panics", 1)
 		}
 		res.Count("mode_"+rec.Mode, 1)
+		res.Count("family_"+rec.Family, 1)
 		recs.Write(rec)
 	}
+	// the (small) exhaustive sequences are spread evenly between the random ones: equal work per TLC shard
+	ex := c56ExhaustivePlans(r, kit.Pick(4, 5))
+	per := (len(ex) + n - 1) / n
 	for i := 0; i < n; i++ {
+		for j := i * per; j < (i+1)*per && j < len(ex); j++ {
+			emit(c56Execute(ex[j]))
+		}
 		emit(c56Execute(c56RandomPlan(r, kit.Pick(6000, 12000), false)))
 	}
 	nbig := kit.Pick(2, 20)
